@@ -83,6 +83,8 @@ class Buffer:
         self.events = []
         self.threshold = 0.6
         self.stored_times = []
+        # Observations accepted for ingest whose data has not fully arrived
+        self.admitted_observations = []
 
     def run(self):
         """
@@ -182,6 +184,11 @@ class Buffer:
                 f"and simulation units do not cause a fractional timestep."
             )
         size = observation.ingest_data_rate * observation.duration
+        # Space still owed to observations that are already being ingested
+        pending = sum(
+            o.ingest_data_rate * o.duration - o.total_data_size
+            for o in self.admitted_observations
+        )
         if self.hot[b].total_capacity <= size:
             raise RuntimeError(
                 f"Observation data size is equal or greater than HotBuffer capacity."
@@ -189,7 +196,7 @@ class Buffer:
                 f"{observation.name}, Observation: {size} vs Hot Buffer: {self.hot[b].total_capacity:.1f}"
             )
 
-        elif self.hot[b].current_capacity - size < 0 \
+        elif self.hot[b].current_capacity - pending - size < 0 \
                 or not self.cold[b].has_capacity_for(size):
             return False
 
@@ -454,6 +461,8 @@ class Buffer:
                 self.waiting_observation_list.append(observation)
                 self.hot[b].observations["stored"].append(observation)
                 self.stored_times.append(self.env.now)
+                if observation in self.admitted_observations:
+                    self.admitted_observations.remove(observation)
                 break
 
             yield self.env.timeout(TIMESTEP)
